@@ -23,7 +23,7 @@ MANIFEST = {
     'text': 'Every code point (BMP in quick, all 0x110000 in thorough) and '
             'every string up to length 4/5 over & < > " \' a e-acute emoji '
             'blank, as str and as bytes in the template encoding, is inserted '
-            'through 19 forms (entity, html_quote in three syntaxes, '
+            'through 24 forms (incl. a second insertion after a clean / tainted one) (entity, html_quote in three syntaxes, '
             'expression, full path with size/null/missing/etc, '
             'fmt=html-quote, plain) on the real code; each result must equal '
             'html.escape(value, quote=True) (plain forms: the value).',
@@ -64,6 +64,13 @@ FORMS = [
     ('fmt-hq', 'HTML', '<dtml-var x fmt=html-quote>', True),
     ('fmt-hq-size', 'HTML', '<dtml-var x fmt=html-quote size=99>', True),
     ('text-around', 'HTML', '[&dtml-x;|<dtml-var x html_quote>]', True),
+    ('after-clean-ent', 'HTML', '&dtml-c;|&dtml-x;', True),
+    ('after-clean-hq', 'HTML', '<dtml-var c html_quote>|<dtml-var x '
+     'html_quote>', True),
+    ('after-clean-mixed', 'HTML', '&dtml-c;<dtml-if c>|<dtml-var x '
+     'html_quote></dtml-if>', True),
+    ('after-tainted', 'HTML', '&dtml-t;|&dtml-x;', True),
+    ('in-loop', 'HTML', '<dtml-in two>&dtml-c;|&dtml-x;,</dtml-in>', True),
     ('plain', 'HTML', '<dtml-var x>', False),
     ('plain-epfs', 'String', '%(x)s', False),
     ('plain-expr', 'HTML', '<dtml-var "x">', False),
@@ -155,10 +162,20 @@ def judge(res, case, form, value, got, expected, enc=None):
                 {'kind': 'one', 'form': form, 'value': value, 'enc': enc})
 
 
+_tainted = []
+
+
+def tainted():
+    if not _tainted:
+        from AccessControl.tainted import TaintedString
+        _tainted.append(TaintedString('<t>'))
+    return _tainted[0]
+
+
 def render(form, value, enc=None):
     t = template(form, enc)
     try:
-        return t(x=value)
+        return t(x=value, c='word', two=[1, 2], t=tainted())
     except Exception as e:       # CaseTimeout is a BaseException
         return e
 
@@ -169,7 +186,14 @@ def run(case):
         # replay form
         value, enc, form = case['value'], case.get('enc'), case['form']
         quoting = FORM_BY_ID[form][3]
-        exp = html.escape(value, True) if quoting else value
+        esc = html.escape(value, True)
+        exp = {'text-around': '[%s|%s]' % (esc, esc),
+               'after-clean-ent': 'word|' + esc,
+               'after-clean-hq': 'word|' + esc,
+               'after-clean-mixed': 'word|' + esc,
+               'after-tainted': '&lt;t&gt;|' + esc,
+               'in-loop': ('word|' + esc + ',') * 2}.get(
+                   form, esc if quoting else value)
         v = value.encode(enc) if enc else value
         judge(res, case, form, value, render(form, v, enc), exp, enc)
         res.nontrivial = True
@@ -196,6 +220,13 @@ def run(case):
             n += 1
             if form == 'text-around':
                 exp = '[%s|%s]' % (esc, esc)
+            elif form in ('after-clean-ent', 'after-clean-hq',
+                          'after-clean-mixed'):
+                exp = 'word|' + esc
+            elif form == 'after-tainted':
+                exp = '&lt;t&gt;|' + esc
+            elif form == 'in-loop':
+                exp = ('word|' + esc + ',') * 2
             else:
                 exp = esc if quoting else value
             if 'null=' in _src and not value:
